@@ -305,6 +305,16 @@ theorem list_setidx_no_slot_item_irrelevant (E : Env) (f : FieldSpec) (xs : List
 /-- non-vacuity: index 5 names no item of a list of two -/
 example : resolveIdx ([Val.int 1, Val.int 2] : List Val).length 5 = none := by decide
 
+/-- **Items that come from this field's own validated list are taken over as they are** (the fast path behind `copy()`,
+    `copy.copy` — F72 —, `+` and `+=` with a list of the same field): the result is the plain concatenation and does not depend on
+    the item field at all — no item passes a validator again, so an item field whose normalisation is not idempotent (an
+    application's unit conversion) or whose acceptance looks at the outside world (a file that must exist) cannot change or refuse
+    what is already held.  `copy()` is the case `xs = []`. -/
+theorem own_items_taken_as_they_are (E : Env) (f g : FieldSpec) (xs ys : List Val) :
+    lstep E f xs (.extend (.sameProxy ys)) = (xs ++ ys, .none) ∧ lstep E f xs (.iadd (.sameProxy ys)) = (xs ++ ys, .none) ∧
+    lstep E f xs (.extend (.sameProxy ys)) = lstep E g xs (.extend (.sameProxy ys)) := by
+  simp [lstep]
+
 /-- **/repo's `ListProxy.__setitem__` is `lstep`'s index assignment, and a shallow copy by the `copy` module is `copy()`**
     (generated reading of the two proxy classes, regenerated on every run): a slice assignment validates every item and then
     delegates; an index assignment looks the index up (`super().__getitem__(index)`: the built-in's `IndexError` / `TypeError`),
